@@ -196,6 +196,7 @@ class Manual:
         self.stream = DR.g_stream(cls, opts) if api == "generic" else DR.r_stream(cls, opts)
         self.ref = jspec.Decoder()
         self.pending: list = []  # events handed to the stream, not yet seen in a frame
+        self.rejected = False    # a call was rejected: the stream may refuse all further use
 
     def conv(self, t):
         return T.to_generic(t) if self.api == "generic" else T.to_rdflib(t)
@@ -217,6 +218,10 @@ class Manual:
         finally:
             self.ref.audit.clear()
         got = [("st", T.norm_st(e[1])) if e[0] == "st" else e for e in evs if e[0] != "opt"]
+        if self.rejected:
+            # (which of the later calls were accepted is C20's business; here: still valid Jelly)
+            self.pending = []
+            return []
         want = self.pending if complete else self.pending[: len(got)]
         if got != want:
             return [f"frame decodes to {got}, the calls made were {self.pending}"]
@@ -255,9 +260,31 @@ class Manual:
 
 
 def manual_step(m: Manual, ev) -> list[str]:
+    if ev[0] == "bad":
+        # a statement whose object is not an RDF term at all: must be rejected; the caller
+        # catches the error and carries on with the same stream
+        if not m.stream.enrolled:
+            return []
+        s, p = m.conv(ev[1]), m.conv(ev[2])
+        try:
+            if m.cls == "triple":
+                m.stream.triple((s, p, object()))
+            elif m.cls == "quad":
+                m.stream.quad((s, p, object(), m.conv(ev[3])))
+            else:
+                for fr in m.stream.graph(m.conv(ev[3]), [(s, p, object())]):
+                    m.deliver(fr, False)
+        except Exception:  # noqa: BLE001
+            m.rejected = True
+            if m.cls == "graph":
+                m.rejected = "in-graph"  # (the graph start went out, its end did not)
+            return []
+        return [f"{ev}: a statement with an object that is no RDF term was accepted"]
     try:
         return m.step(ev)
     except Exception as e:  # noqa: BLE001
+        if m.rejected:
+            return []  # refusing further use after a rejected statement is allowed
         return [f"{ev}: {type(e).__name__}: {e}"]
 
 
@@ -270,7 +297,7 @@ def manual_canon(m: Manual):
     return (B.dump(m.stream.encoder), B.dump(m.stream.repeated_terms), B.dump(list(m.stream.flow)),
             m.stream.enrolled, getattr(m.stream, "failed", None), tabs, r.last_prefix, r.last_name,
             tuple(sorted(r.prev.items())), r.graph_open, r.graph, r.options is None,
-            tuple(m.pending))
+            tuple(m.pending), m.rejected)
 
 
 MANUAL_SCOPES = {
@@ -292,6 +319,8 @@ def manual_events(cls: str) -> list:
     tr = [(a, a, L("x")), (a, b, L("x", None, "http://a/x")), (b, I("z"), a)]
     evs: list = [("enroll",), ("opt",), ("flush",), ("ns", "p", "http://c/"), ("ns", "", "http://b#y"),
                  ("ns", "q", "z")]
+    # (subject and predicate are new to the stream: they reach the tables before the rejection)
+    evs.append(("bad", I("http://c/new-s"), I("http://b#new-p"), b))
     if cls == "triple":
         evs += [("st", t) for t in tr]
     elif cls == "quad":
